@@ -7,6 +7,7 @@ CONSTANTS
   Phases <- LemmaPhases
   NatRank <- LemmaRank
 INVARIANT TransposeInvolution
+INVARIANT ProofCopiesAgree
 INVARIANT SortInverse
 INVARIANT FilterAllIsIdentity
 INVARIANT FilterInvertIsComplement
